@@ -204,7 +204,12 @@ def ob_lattice(ctx, n, a):
         ks = sorted({0, 1, n // 2, n - 2, n - 1})
         for k in ks:
             ref = Fraction(2 * k, n - 1) - 1 if a else Fraction(2 * k + 1, n) - 1
-            ctx.eq(c[k, 0], float(ref), f"n={n} sample {k}")
+            # concrete float coordinates: exact for small n; for large n a float32 value and its exact rational are
+            # identified only up to float32 resolution, so the claim is stated with that tolerance
+            if n <= 64:
+                ctx.eq(c[k, 0], float(ref), f"n={n} sample {k}")
+            else:
+                ctx.close(c[k, 0], float(ref), 1e-6, f"n={n} sample {k} (within 1e-6)")
         ctx.true((c >= -1) & (c <= 1), f"n={n}: all inside [-1, 1]")
 
 
@@ -241,8 +246,9 @@ def ob_identity_resample(ctx, D, sizes, a):
     ctx.eq(out_b, img, f"identity resampling (border) align_corners={a}")
     out_n = F.grid_sample(img, c, mode="nearest", padding_mode="zeros", align_corners=a)
     ctx.eq(out_n, img, f"identity resampling (nearest) align_corners={a}")
-    wrong = F.grid_sample(img, c, mode="bilinear", padding_mode="border", align_corners=not a)
-    ctx.differ(wrong, img, "other align_corners flag must differ")
+    if any(m > 2 for m in sizes):  # (with two samples per axis and border padding both conventions clamp to the same voxels)
+        wrong = F.grid_sample(img, c, mode="bilinear", padding_mode="border", align_corners=not a)
+        ctx.differ(wrong, img, "other align_corners flag must differ")
 
 
 def ob_cube(ctx, D, a):
